@@ -66,6 +66,12 @@ func (w *World) assemble(bi *BlockInfo, round uint32, vals *types.ValidatorSet, 
 				}
 			}
 		}
+		if pick == nil {
+			// a Byzantine validator signs whatever helps: its precommit for this block is always available
+			if bz := w.valIndexOfAddr(val.Address); bz >= 0 && w.IsByz[bz] {
+				pick = w.byzVote(bz, uint32(i), kproto.PrecommitType, bi.Height, round, bi.ID, "blocksync").Vote
+			}
+		}
 		if pick != nil {
 			sigs[i] = types.NewCommitSigForBlock(pick.Signature, pick.ValidatorAddress, pick.Timestamp)
 			n++
